@@ -26,8 +26,7 @@ def configs(tier):
     # minimum); decided on the real step of every explicit integrator with an arbitrary right-hand side (harness shared with C05)
     for integ in ('explicit', 'rk2', 'rk2_heun', 'rk3_heun', 'rk3ssp', 'rk4', 'lsrk25bb', 'lsrk26bb', 'lsrk4'):
         out.append({'model': 'local-step', 'integrator': integ})
-    for g in []:
-        pass
+    for g in ['2', '7/5']:
         out.append({'model': 'euler2d', 'gamma': g})
         for nrm in ([1, 0], [0, 1], [-1, 0], [0, -1]):
             out.append({'model': 'euler2d', 'gamma': g, 'normal': nrm})
